@@ -119,6 +119,32 @@ func isDisruptive(a actJ) bool {
 	return false
 }
 
+func normaliseBodyKeys(rules []ruleJ) []ruleJ {
+	hdr := map[int]bool{}
+	for _, r := range rules {
+		for _, l := range r.Links {
+			if !l.Body && l.Key >= 0 {
+				hdr[l.Key] = true
+			}
+		}
+	}
+	out := append([]ruleJ{}, rules...)
+	for i := range out {
+		changed := false
+		links := append([]linkJ{}, out[i].Links...)
+		for j := range links {
+			if links[j].Body && hdr[links[j].Key] {
+				links[j].Body = false
+				changed = true
+			}
+		}
+		if changed {
+			out[i].Links = links
+		}
+	}
+	return out
+}
+
 func hasBodyKeys(rules []ruleJ) bool { return len(bodyKeySet(rules)) > 0 }
 
 // bodyKeySet: which request bits are delivered through the urlencoded body
@@ -631,6 +657,13 @@ func Run(cfg vh.Config) (*vh.Result, error) {
 			sets = append(sets, ruleSet{Engine: c.Engine, Rules: c.Rules, Shape: "corpus:" + names[i], Reqs: [][]bool{c.Req}, Hists: [][]histStep{c.History}})
 		}
 		sets = append(sets, generate(cfg)...)
+	}
+
+	// a request bit is delivered either through a header or through the body: a key read both ways
+	// (possible when keys are shared between links) is read through the header everywhere. Applied to
+	// every set (generated, corpus, replay) without drawing random numbers.
+	for i := range sets {
+		sets[i].Rules = normaliseBodyKeys(sets[i].Rules)
 	}
 
 	var (
